@@ -52,6 +52,8 @@ def main():
         demo_dst = os.path.join(wt, pkgdir, meta["demo_file_name"])
         shutil.copy("%s/%s_demo_test.go" % (src, x), demo_dst)
         run = meta["demo_run"]
+        # private network namespace: some demos live in packages that bind fixed loopback ports
+        run = "unshare -rn bash -c 'ip link set lo up; %s'" % run.replace("'", "'\\''")
         rc0, out0 = sh(run, cwd=os.path.join(wt, module), timeout=900)
         rec["demo_on_clean_tree"] = "pass" if rc0 == 0 else "FAIL"
         rc, out = sh("git apply %s/%s.diff" % (src, x), cwd=wt)
